@@ -9,6 +9,7 @@
   len(x[:-1]) is written len(x)-1 (both give the empty list for an empty x when used as a repeat count)."""
 import ast
 import copy
+import re
 from .model import Unknown, AnalysisError, norm
 from .layout import _subst_target
 
@@ -296,3 +297,95 @@ def ieval(e, env):
             except Exception:
                 raise NotClosed(norm(e))
     raise NotClosed(norm(e))
+
+
+# ---------------------------------------------------------------------------------------------------------------
+# string templates: f-strings, "..".format(..), ".." % (..) and + concatenation as one list of literal / value parts
+# ---------------------------------------------------------------------------------------------------------------
+def template_parts(expr, strip_str=True):
+    """[("lit", text) | ("expr", normalised text)] for a string-building expression whose template is a literal (after constant folding):
+    f"..{a}..", "..{}..".format(a), "..{n}..".format(n=a), "..%s.." % a / % (a, b), and `+` of such parts.  str(a) inside a value position is
+    a (both render the decimal / the string itself for the int and str values the analysed code formats).  None when the shape is not one
+    of these (conversions, format specs, attribute lookups inside fields, %d with flags ...)."""
+    import string
+
+    def val(e):
+        if strip_str and isinstance(e, ast.Call) and isinstance(e.func, ast.Name) and e.func.id == "str" and len(e.args) == 1 and not e.keywords:
+            e = e.args[0]
+        if isinstance(e, ast.Constant) and isinstance(e.value, str):
+            return ("lit", e.value)
+        return ("expr", norm(e))
+
+    def go(e):
+        if isinstance(e, ast.Constant) and isinstance(e.value, str):
+            return [("lit", e.value)]
+        if isinstance(e, ast.JoinedStr):
+            out = []
+            for v in e.values:
+                if isinstance(v, ast.Constant):
+                    out.append(("lit", v.value))
+                elif isinstance(v, ast.FormattedValue) and v.conversion == -1 and v.format_spec is None:
+                    out.append(val(v.value))
+                else:
+                    return None
+            return out
+        if isinstance(e, ast.BinOp) and isinstance(e.op, ast.Add):
+            a, b = go(e.left), go(e.right)
+            return None if a is None or b is None else a + b
+        if isinstance(e, ast.Call) and isinstance(e.func, ast.Attribute) and e.func.attr == "format" and isinstance(e.func.value, ast.Constant) \
+                and isinstance(e.func.value.value, str) and not any(isinstance(a, ast.Starred) for a in e.args) and all(k.arg for k in e.keywords):
+            out, auto = [], 0
+            kw = {k.arg: k.value for k in e.keywords}
+            try:
+                fields = list(string.Formatter().parse(e.func.value.value))
+            except ValueError:
+                return None
+            for lit, name, spec, conv in fields:
+                if lit:
+                    out.append(("lit", lit))
+                if name is None:
+                    continue
+                if spec or conv:
+                    return None
+                if name == "":
+                    if auto >= len(e.args):
+                        return None
+                    out.append(val(e.args[auto]))
+                    auto += 1
+                elif name.isdigit():
+                    if int(name) >= len(e.args):
+                        return None
+                    out.append(val(e.args[int(name)]))
+                elif name in kw:
+                    out.append(val(kw[name]))
+                else:
+                    return None
+            return out
+        if isinstance(e, ast.BinOp) and isinstance(e.op, ast.Mod) and isinstance(e.left, ast.Constant) and isinstance(e.left.value, str):
+            args = list(e.right.elts) if isinstance(e.right, ast.Tuple) else [e.right]
+            pieces = re.split(r"(%[sd%])", e.left.value)
+            if any("%" in p for p in pieces[0::2]):
+                return None
+            out, i = [], 0
+            for p in pieces:
+                if p == "%%":
+                    out.append(("lit", "%"))
+                elif p in ("%s", "%d"):
+                    if i >= len(args):
+                        return None
+                    out.append(val(args[i]))
+                    i += 1
+                elif p:
+                    out.append(("lit", p))
+            return out if i == len(args) else None
+        return None
+    parts = go(expr)
+    if parts is None:
+        return None
+    merged = []
+    for k, t in parts:
+        if k == "lit" and merged and merged[-1][0] == "lit":
+            merged[-1] = ("lit", merged[-1][1] + t)
+        elif not (k == "lit" and t == ""):
+            merged.append((k, t))
+    return merged
